@@ -4,7 +4,7 @@ use crate::ef::*;
 use crate::with_dict_backend;
 use engine::*;
 use sux::dict::elias_fano::EliasFano;
-use sux::traits::{IndexedDict, IndexedSeq, Pred, SelectUnchecked, SelectZeroUnchecked, Succ};
+use sux::traits::{IndexedDict, Pred, SelectUnchecked, SelectZeroUnchecked, Succ};
 
 pub struct C04;
 
